@@ -577,6 +577,16 @@ class Group:
         except Exception as ex:  # noqa: BLE001
             self.report[kname] = "FAILED: internal %r" % (ex,)
 
+    def write_raw(self):
+        os.makedirs(OUT, exist_ok=True)
+        text = ("/- GENERATED by tools/extract.py from %s — do not edit. -/\nnamespace BLDFM.Generated.Tables\n\n" % self.src
+                + "\n".join(self.defs) + "\nend BLDFM.Generated.Tables\n")
+        path = os.path.join(OUT, self.name + ".lean")
+        old = open(path).read() if os.path.exists(path) else None
+        if old != text:
+            with open(path, "w") as f:
+                f.write(text)
+
     def write(self):
         os.makedirs(OUT, exist_ok=True)
         text = HEADER % self.src + "\n".join(self.defs) + FOOTER
@@ -945,6 +955,57 @@ def pbl_group():
     return g
 
 
+def tables_group():
+    """static extracts consumed by `decide`-style bridge theorems"""
+    g = Group("Tables", "src/bldfm/config_parser.py, interface.py, cache.py, solver.py (static extracts)")
+    lines = []
+
+    def lean_strs(xs):
+        return "[" + ", ".join('"%s"' % x.replace('"', "'") for x in xs) + "]"
+    # C16: fields inspected by n_timesteps / validate
+    try:
+        tree = ast.parse(open(os.path.join(REPO_SRC, "config_parser.py")).read())
+        met = [n for n in ast.walk(tree) if isinstance(n, ast.ClassDef) and n.name == "MetConfig"][0]
+        fns = {n.name: n for n in met.body if isinstance(n, ast.FunctionDef)}
+
+        def attrs_in(fn):
+            out = []
+            for n in ast.walk(fn):
+                if isinstance(n, ast.Attribute) and isinstance(n.value, ast.Name) and n.value.id == "self" and n.attr not in out:
+                    out.append(n.attr)
+                if isinstance(n, ast.Constant) and isinstance(n.value, str) and n.value in ("ustar", "mol", "wind_speed", "wind_dir") and n.value not in out:
+                    out.append(n.value)
+            return out
+        nt = [a for a in attrs_in(fns["n_timesteps"]) if a in ("ustar", "mol", "wind_speed", "wind_dir")]
+        va = [a for a in attrs_in(fns["validate"]) if a in ("ustar", "mol", "wind_speed", "wind_dir", "z0", "timestamps")]
+        lines.append("def metFieldsNTimesteps : List String := %s" % lean_strs(sorted(nt)))
+        lines.append("def metFieldsValidate : List String := %s" % lean_strs(sorted(va)))
+        g.report["metFields"] = "ok"
+    except Exception as e:  # noqa: BLE001
+        g.report["metFields"] = "FAILED: %r" % (e,)
+    # C10: level bookkeeping pattern of the two loops (store by position vs running counter)
+    try:
+        tree = ast.parse(open(os.path.join(REPO_SRC, "solver.py")).read())
+        pat = []
+        for fn in ast.walk(tree):
+            if isinstance(fn, ast.FunctionDef) and fn.name in ("ivp_solver", "steady_state_transport_solver"):
+                for n in ast.walk(fn):
+                    if isinstance(n, ast.If):
+                        t = ast.unparse(n.test).replace(" ", "")
+                        if t in ("levels[lvl]==i", "levels[lvl]==nz-1", "i==levels[lvl]", "nz-1==levels[lvl]"):
+                            pat.append("by-position")
+                        elif "inlevels" in t:
+                            pat.append("membership+counter")
+        lines.append("def levelStorePattern : List String := %s" % lean_strs(sorted(set(pat))))
+        lines.append("def levelStoreSites : Nat := %d" % len(pat))
+        g.report["levelStore"] = "ok"
+    except Exception as e:  # noqa: BLE001
+        g.report["levelStore"] = "FAILED: %r" % (e,)
+    g.defs = [l + "\n" for l in lines]
+    g.write_raw()
+    return g
+
+
 def rename(e, m):
     if not isinstance(e, E):
         raise TranslateError(getattr(e, "why", "not an expression"))
@@ -970,7 +1031,7 @@ def refreeze(sol, sol_err, target, frozen, path_has=(), extra_aliases=None):
 def main():
     os.makedirs(OUT, exist_ok=True)
     report = {}
-    groups = [solver_group, misc_group, pbl_group]
+    groups = [solver_group, misc_group, pbl_group, tables_group]
     for mk in groups:
         try:
             g = mk()
